@@ -578,12 +578,13 @@ Record fixes := {
   fx_nowait : bool;             (* F16 repaired: no-wait requests are not answered *)
   fx_stage : bool;              (* F14/F15/F48 repaired: class/channel and handshake-order checks *)
   fx_reopen_resets : bool;      (* F17 repaired: channel.open on a closed channel number starts from a fresh state *)
+  fx_chan_open : bool;          (* F54 repaired: a channel that is not open accepts channel.open only *)
 }.
 
 Definition all_fixed : fixes :=
   {| fx_direct_all := true; fx_redelivered := true; fx_delete_checks_first := true; fx_noack_total_once := true;
      fx_get_count := true; fx_closeok_releases := true; fx_excl_owner := true; fx_clear_current := true; fx_not_impl := true;
-     fx_empty_body := true; fx_discard_closing := true; fx_nowait := true; fx_stage := true; fx_reopen_resets := true |}.
+     fx_empty_body := true; fx_discard_closing := true; fx_nowait := true; fx_stage := true; fx_reopen_resets := true; fx_chan_open := true |}.
 
 Definition consumer_turn (cfg : config) (fx : fixes) (s : state) (c h : N) (tag : string) : state * list event :=
   match get_chan s c h with
@@ -770,12 +771,12 @@ Definition handle_method (cfg : config) (fx : fixes) (s : state) (c h : N) (m : 
       ok (set_chan s c h (ch <| ch_status := ChOpen |>)) (out1 c h SChannelOpenOk)
     | _ => ok (set_chan s c h (ch <| ch_status := ChOpen |>)) (out1 c h SChannelOpenOk)
     end
+  (* channelClose / channelCloseOk set the status first and then run channel.close(), which sets it again at its end;
+     nothing in between reads it, so the model writes it once *)
   | MChannelClose =>
-    let s := set_chan s c h (ch <| ch_status := ChClosed |>) in
     ok (channel_close cfg s c h) (out1 c h SChannelCloseOk)
   | MChannelCloseOk =>
-    let s := set_chan s c h (ch <| ch_status := ChClosed |>) in
-    ok (if fx_closeok_releases fx then channel_close cfg s c h else s) []
+    ok (if fx_closeok_releases fx then channel_close cfg s c h else set_chan s c h (ch <| ch_status := ChClosed |>)) []
   | MChannelFlow a =>
     let s :=
       if Bool.eqb (ch_flow ch) a then s else
@@ -1039,6 +1040,13 @@ Definition apply_err (s : state) (c h : N) (r : state * list event * option aerr
   | Some e => let '(s, evs') := send_error s c h e in (s, evs ++ evs')
   end.
 
+(* the channel was opened and not closed since (or the broker is closing it) *)
+Definition chan_usable (s : state) (c h : N) : bool :=
+  match get_chan s c h with
+  | Some ch => match ch_status ch with ChOpen | ChClosing => true | _ => false end
+  | None => false
+  end.
+
 Definition step (cfg : config) (fx : fixes) (s : state) (l : label) : state * list event :=
   match l with
   | LConnect c =>
@@ -1061,7 +1069,9 @@ Definition step (cfg : config) (fx : fixes) (s : state) (l : label) : state * li
         if fx_discard_closing fx && closing && negb (is_chan_close m) then (s, [])
         else if fx_stage fx && negb (Bool.eqb (is_conn_class m) (h =? 0))
              then apply_err s c h (refuse s (ConnErr CommandInvalid (fst (meth_ids m)) (snd (meth_ids m))))
-             else apply_err s c h (handle_method cfg fx s c h m)
+             else if fx_chan_open fx && negb (chan_usable s c h) && negb (match m with MChannelOpen => true | _ => false end)
+                  then apply_err s c h (refuse s (ConnErr ChannelErr (fst (meth_ids m)) (snd (meth_ids m))))
+                  else apply_err s c h (handle_method cfg fx s c h m)
       end
     end
   | LHeader c h mid size pers =>
